@@ -137,10 +137,13 @@ class Monitor:
         if not first and self.saved_before_exit:
             self.ctx.counters["probe:restart-on-own-save"] += 1
             if ns:
-                self.ctx.violate("C16/dirty-at-start-after-own-save", "a new session on the file the previous session just saved reports that it needs saving")
+                inj = "/injected-default-in-saving-session" if self.saved_with_injection else ""
+                self.ctx.violate("C16/dirty-at-start-after-own-save" + inj, "a new session on the file the previous session just saved reports that it needs saving")
         self.saved_before_exit = False
+        self.saved_with_injection = False
 
     saved_before_exit = False
+    saved_with_injection = False
 
     def before(self, sess, act):
         with simproc.quiet():
@@ -155,6 +158,7 @@ class Monitor:
         if exited is not None and (exited.startswith("Configuration saved") or exited.startswith("No change to configuration")):
             saved = True
             self.saved_before_exit = True
+            self.saved_with_injection = bool(ops.injected(st.kconf))
         elif exited is not None:
             self.saved_before_exit = False
         if saved:
